@@ -19,7 +19,8 @@ META = {
             "x-space mode) at the target points or the identity, absent flavours contributing zero, the division by x applied "
             "exactly once, labels taken from the basis actually rotated to; errors go through the same chain with the stored "
             "error tensor and exist only for operators that have one."
-            " The internal points in another order as target grid give the permutation (shared with C34).",
+            " The internal points in another order as target grid give the permutation (shared with C34)."
+            " Three applications in one evaluator to archives with the same points and alternating kinds of interpolation each use an interpolator built on the grid object of the archive being applied.",
     "note": "Values of the interpolation matrix itself are C34.",
     "technique": "partial evaluation with symbolic tensors and a symbolic PDF object + polynomial identity testing over F_p",
     "engine": "sa",
@@ -106,6 +107,7 @@ def run(chk):
             d = Obj(disp_cls)
             d.attrs.update(xgrid=k.get("xgrid", a[0] if a else None), deg=k.get("polynomial_degree", a[1] if len(a) > 1 else None),
                            mode_N=k.get("mode_N", a[2] if len(a) > 2 else True))
+            d.attrs.update(polynomial_degree=d.attrs["deg"], log=getattr(d.attrs["xgrid"], "attrs", {}).get("log"))
             built.append(d)
             return d
 
@@ -121,7 +123,7 @@ def run(chk):
             chk.fail("apply-is-the-contraction", fap.qname, f"{inst}: raises {e}", where=fap.where, instance=inst)
             continue
         if tgt:
-            ok = len(built) == 2 and all(d.attrs["xgrid"] is eko.xgrid and d.attrs["deg"] is dag.sym("deg") and d.attrs["mode_N"] is False for d in built)
+            ok = len(built) >= 1 and all(d.attrs["xgrid"] is eko.xgrid and d.attrs["deg"] is dag.sym("deg") and d.attrs["mode_N"] is False for d in built)
             chk.decide(ok, "target-grid-uses-the-operator-grid", f"{AP}.rotate_result", f"{inst}: interpolators built with "
                        f"{[(getattr(d.attrs['xgrid'], 'attrs', {}).get('tag', type(d.attrs['xgrid']).__name__), d.attrs['deg'], d.attrs['mode_N']) for d in built]}; "
                        f"required: the EKO's own XGrid object (keeping its log flag), the card's degree, x-space mode",
@@ -182,6 +184,40 @@ def run(chk):
     from .c34 import permuted_target_rule
 
     permuted_target_rule(chk, src, "target-grid-is-reinterpolation")
+    # three applications in ONE process to archives with the same x points but alternating kinds of interpolation: whatever
+    # interpolator an application uses was built on ITS grid object (with its log / linear flag)
+    pe = PE(src)
+    used = []
+
+    def mk_disp2(p, a, k):
+        d = Obj(disp_cls)
+        d.attrs.update(xgrid=k.get("xgrid", a[0] if a else None), polynomial_degree=k.get("polynomial_degree", a[1] if len(a) > 1 else None),
+                       mode_N=k.get("mode_N", a[2] if len(a) > 2 else True))
+        d.attrs["log"] = getattr(d.attrs["xgrid"], "attrs", {}).get("log")
+        return d
+
+    pe.overrides[disp_cls.qname] = mk_disp2
+    pe.overrides[f"{disp_cls.qname}.get_interpolation"] = lambda p, a, k: used.append(a[0]) or Arr.from_nested([[dag.sym(f"M_{i}{j}") for j in range(NX)] for i in range(2)])
+    stale = None
+    for turn, log in enumerate((True, False, True)):
+        o = Obj(src.cls("eko.io.items.Operator"))
+        o.attrs.update(operator=sym_op(f"P{turn}", 14, NX), error=sym_op(f"Q{turn}", 14, NX))
+        eko = MockEko(src, {(dag.sym("mu2_0"), 4): o}, False)
+        eko.xgrid.attrs.update(log=log, _raw=eko.xgrid.attrs["raw"], size=NX)
+        del used[:]
+        try:
+            pe.call(fap.qname, [eko, MockPdf(present)], {"targetgrid": Arr.from_nested([dag.sym("xt0"), dag.sym("xt1")]), "rotate_to_evolution_basis": False})
+        except (PERaise, ValueError) as e:
+            stale = stale or (turn, f"raises {e}")
+            continue
+        wrong = [d for d in used if not (isinstance(d, Obj) and d.attrs.get("xgrid") is eko.xgrid)]
+        if (wrong or not used) and stale is None:
+            stale = (turn, f"uses an interpolator built on {[('another grid object, log=' + str(getattr(d.attrs.get('xgrid'), 'attrs', {}).get('log'))) if isinstance(d, Obj) else type(d).__name__ for d in wrong] or 'nothing'}")
+    chk.decide(stale is None, "target-grid-uses-the-operator-grid", f"{AP}.rotate_result",
+               f"three applications in one process to archives with the same x points, logarithmic / linear / logarithmic: application {stale[0] + 1 if stale else ''} "
+               f"{stale[1] if stale else ''}; required: the interpolator of the archive being applied (its grid object with its flag) - something kept "
+               f"from an earlier application is reused", where=src.func(f"{AP}.rotate_result").where, instance="applications in sequence",
+               how="PE of consecutive applications in one evaluator")
     chk.floor("tensor identities", n_id, 20)
     chk.note(identities=n_id, files=["src/ekobox/apply.py"])
     chk.explanation = "Whole apply chain decided for all operator and PDF values, for the 8 option combinations."
